@@ -22,6 +22,7 @@ import (
 	"context"
 	stderrors "errors"
 	"fmt"
+	"os"
 	"sort"
 	"strconv"
 	"strings"
@@ -180,6 +181,14 @@ type env struct {
 	commitKeys  [][]byte
 	rpcMuts     map[uint64]map[string][]byte // generation -> mutations seen in Flush requests
 	deadGens    map[uint64]bool              // generations whose flush function has returned an error
+
+	// commit point (txn world): what happens to the successive Commit requests for the primary (x: executed, answer
+	// lost; n: lost before execution; k: definite key error; o: executed and answered; the last entry repeats)
+	commitScript     string
+	commitAttempts   int
+	lastAttemptLost  bool
+	primaryCommitted bool   // store tier: the primary is committed
+	commitAnswer     string // "", "nil", "undetermined", "other"
 
 	entered chan struct{}
 	release chan completion
@@ -468,8 +477,37 @@ func (h *hijack) SendRequest(ctx context.Context, addr string, req *tikvrpc.Requ
 		return &tikvrpc.Response{Resp: resp}, nil
 	case tikvrpc.CmdCommit:
 		e.mu.Lock()
-		e.commitKeys = append(e.commitKeys, req.Commit().Keys...)
-		e.mu.Unlock()
+		defer e.mu.Unlock()
+		sc := e.commitScript
+		if sc == "" {
+			sc = "o"
+		}
+		i := e.commitAttempts
+		if i >= len(sc) {
+			i = len(sc) - 1
+		}
+		e.commitAttempts++
+		act := sc[i]
+		if e.commitAttempts == 1 {
+			e.commitKeys = append(e.commitKeys, req.Commit().Keys...)
+		}
+		switch act {
+		case 'x':
+			e.primaryCommitted = true
+			e.lastAttemptLost = true
+			return nil, errors.New("scripted: commit executed, answer lost")
+		case 'n':
+			e.lastAttemptLost = true
+			return nil, errors.New("scripted: commit request lost")
+		case 'k':
+			e.lastAttemptLost = false
+			if e.primaryCommitted {
+				return &tikvrpc.Response{Resp: &kvrpcpb.CommitResponse{}}, nil
+			}
+			return &tikvrpc.Response{Resp: &kvrpcpb.CommitResponse{Error: &kvrpcpb.KeyError{Abort: "scripted abort"}}}, nil
+		}
+		e.lastAttemptLost = false
+		e.primaryCommitted = true
 		return &tikvrpc.Response{Resp: &kvrpcpb.CommitResponse{}}, nil
 	case tikvrpc.CmdTxnHeartBeat:
 		return &tikvrpc.Response{Resp: &kvrpcpb.TxnHeartBeatResponse{LockTtl: req.TxnHeartBeat().AdviseLockTtl}}, nil
@@ -841,7 +879,31 @@ func (e *env) describeResolve(commit bool) string {
 	return out
 }
 
-func (e *env) commit(l1, l2 completion) (opName string, out string) {
+func classify(err error) string {
+	switch {
+	case err == nil:
+		return "nil"
+	case tikverr.IsErrorUndetermined(err):
+		return "undetermined"
+	}
+	return "other"
+}
+
+// the property at the commit point: the caller must not be told a definite failure for a committed transaction, nor
+// success for one that is not committed
+func (e *env) chkAnswer() string {
+	e.mu.Lock()
+	defer e.mu.Unlock()
+	switch {
+	case e.commitAnswer == "other" && e.primaryCommitted:
+		return "FAIL answer-contradicts-outcome"
+	case e.commitAnswer == "nil" && !e.primaryCommitted:
+		return "FAIL answer-nil-not-committed"
+	}
+	return "ok"
+}
+
+func (e *env) commit(l1, l2 completion, script string) (opName string, out string) {
 	if e.mode == "bare" {
 		r := e.doFlush(true, l1)
 		switch {
@@ -881,6 +943,9 @@ func (e *env) commit(l1, l2 completion) (opName string, out string) {
 		}
 	}
 	e.auto.Store(&l2)
+	e.mu.Lock()
+	e.commitScript = script
+	e.mu.Unlock()
 	genBefore := e.p.VerifGeneration()
 	pendingBefore := e.pending
 	var err error
@@ -889,6 +954,13 @@ func (e *env) commit(l1, l2 completion) (opName string, out string) {
 		return "commit", "panic deadlock"
 	}
 	e.auto.Store(nil)
+	e.mu.Lock()
+	e.commitAnswer = classify(err)
+	attempts, lastLost := e.commitAttempts, e.lastAttemptLost
+	e.mu.Unlock()
+	if os.Getenv("VERIF_C16_DEBUG") != "" && err != nil {
+		fmt.Fprintf(os.Stderr, "Commit returned: %v (class %s, attempts %d)\n", err, classify(err), attempts)
+	}
 	started := e.p.VerifGeneration() != genBefore
 	if started {
 		e.expected = append(e.expected, pendingBefore)
@@ -898,6 +970,36 @@ func (e *env) commit(l1, l2 completion) (opName string, out string) {
 				e.lockKeys[k] = true
 			}
 		}
+	}
+	if err != nil && attempts > 0 {
+		// the error comes from the commit point
+		if undet := classify(err) == "undetermined"; undet || lastLost {
+			label := "err commit lost"
+			if undet {
+				label = "err commit undetermined"
+			}
+			// the undetermined flag is set: execute() must not clean up; give a wrongly started cleanup a moment to show
+			l := logOf(e.txn.StartTS())
+			select {
+			case <-l.done:
+				r := e.describeResolve(false)
+				if strings.HasPrefix(r, "ok ") {
+					r = r[3:]
+				}
+				return "commit", label + " cleanup " + r
+			case <-time.After(100 * time.Millisecond):
+			}
+			return "commit", label
+		}
+		kind := "err commit keyerr"
+		if ps, pe, _ := e.txn.VerifPipelinedRange(); len(ps) != 0 && len(pe) != 0 {
+			r := e.describeResolve(false)
+			if !strings.HasPrefix(r, "ok ") {
+				return "commit", r
+			}
+			kind += " cleanup " + r[3:]
+		}
+		return "commit", kind
 	}
 	if err != nil {
 		msg := err.Error()
@@ -1052,6 +1154,9 @@ func exec(op string) (string, string) {
 	if len(w) == 0 {
 		return op, "bad-op"
 	}
+	if (w[0] == "commit" || w[0] == "commit-clean") && len(w) == 6 {
+		w = append(w, "o") // the primary Commit request is executed and answered
+	}
 	res := vx.Guard(func() string { return exec1(w) })
 	return strings.Join(w, " "), res
 }
@@ -1110,7 +1215,7 @@ func exec1(w []string) string {
 	if e.dead {
 		return "panic deadlock"
 	}
-	if e.over && w[0] != "chk-covered" && w[0] != "chk-flush" && w[0] != "chk-range" {
+	if e.over && w[0] != "chk-covered" && w[0] != "chk-flush" && w[0] != "chk-range" && w[0] != "chk-answer" {
 		return "bad-op"
 	}
 	switch w[0] {
@@ -1270,7 +1375,7 @@ func exec1(w []string) string {
 		e.p.Cleanup(h)
 		return "ok"
 	case "commit", "commit-clean":
-		if len(w) != 6 {
+		if len(w) != 7 || w[6] == "" || strings.Trim(w[6], "xnko") != "" {
 			return "bad-op"
 		}
 		l1, ok1 := parseCompletion(w[2], w[3])
@@ -1279,8 +1384,23 @@ func exec1(w []string) string {
 			return "bad-op"
 		}
 		w[1] = strconv.FormatUint(e.p.VerifMutableMem(), 10)
-		name, out := e.commit(l1, l2)
+		name, out := e.commit(l1, l2, w[6])
 		w[0] = name
+		// how many attempts the request sender makes is an input of the model: the op carries what happened to the
+		// attempts that were made
+		e.mu.Lock()
+		if n := e.commitAttempts; n > 0 {
+			sc := []byte{}
+			for i := 0; i < n; i++ {
+				j := i
+				if j >= len(w[6]) {
+					j = len(w[6]) - 1
+				}
+				sc = append(sc, w[6][j])
+			}
+			w[6] = string(sc)
+		}
+		e.mu.Unlock()
 		return out
 	case "rollback":
 		if len(w) != 3 {
@@ -1297,6 +1417,11 @@ func exec1(w []string) string {
 		return e.chkCovered()
 	case "chk-range":
 		return e.chkRange()
+	case "chk-answer":
+		if e.mode != "txn" {
+			return "ok"
+		}
+		return e.chkAnswer()
 	}
 	return "bad-op"
 }
@@ -1515,10 +1640,11 @@ func (g *gen) txnCase(n int) {
 		g.do("chk-read " + vx.Hex(k))
 	}
 	if g.r.Bool() {
-		g.do("commit 0 " + g.compTxn(errPct) + " " + g.compTxn(errPct))
+		g.do("commit 0 " + g.compTxn(errPct) + " " + g.compTxn(errPct) + " " + g.commitScript())
 	} else {
 		g.do("rollback " + g.compTxn(errPct))
 	}
+	g.do("chk-answer")
 	g.do("chk-flush")
 	g.do("chk-covered")
 }
@@ -1592,7 +1718,7 @@ func (g *gen) txnRangeCase(n int) {
 	}
 	switch g.r.Intn(3) {
 	case 0:
-		g.do("commit 0 ok 0 ok 0")
+		g.do("commit 0 ok 0 ok 0 " + g.commitScript())
 	case 1:
 		g.do("rollback ok 0")
 	default:
@@ -1600,9 +1726,19 @@ func (g *gen) txnRangeCase(n int) {
 		g.do("set " + g.key() + " " + g.val())
 		g.do("commit 0 ok 0 err 0")
 	}
+	g.do("chk-answer")
 	g.do("chk-flush")
 	g.do("chk-range")
 	g.do("chk-covered")
+}
+
+// what happens to the Commit request(s) for the primary: mostly answered; sometimes executed with the answer lost, lost
+// before execution, or refused with a definite key error (later entries matter only if the request sender retries)
+func (g *gen) commitScript() string {
+	if g.r.Chance(70) {
+		return "o"
+	}
+	return []string{"x", "n", "k", "xo", "xx", "nk", "nn", "no", "xk"}[g.r.Intn(9)]
 }
 
 func (g *gen) compTxn(errPct int) string {
@@ -1619,6 +1755,10 @@ func main() {
 	run := vx.Start()
 	defer run.Finish()
 	util.EnableFailpoints()
+	// retries after a lost Commit answer back off without sleeping (the budget is still counted)
+	if err := failpoint.Enable("tikvclient/fastBackoffBySkipSleep", "return"); err != nil {
+		panic(err)
+	}
 	lg := zap.New(&capCore{})
 	log.ReplaceGlobals(lg, &log.ZapProperties{Core: &capCore{}, Level: zap.NewAtomicLevelAt(zapcore.DebugLevel)})
 	if run.Replay != "" {
